@@ -67,21 +67,31 @@ def fileLen (d : Disk) (p : Path) : Nat :=
   | some f => f.length
   | none => 0
 
-/-- `flushLocked` under faults -/
+/-- `flushLocked` under faults.  With `rollsBackFailedBlock` this is the repaired version: a
+    failed block write is cut off again (`Truncate(start)`, remembered in `dirty` when even that
+    fails and retried before the next block), the offset goes back and the entries stay buffered. -/
 def flushWF (fc : FCfg) (mk : Mk) (s : FSt) : FSt :=
+  -- the repaired flush first gets rid of a fragment it could not cut off earlier
+  let s : FSt × Bool :=
+    if fc.rollsBackFailedBlock && s.w.dirty then
+      let (s', r) := s.issue (.truncate s.w.path s.w.pos)
+      if r.isOk then ({ s' with w := { s'.w with dirty := false } }, true) else ({ s' with failed := true }, false)
+    else (s, true)
+  if !s.2 then s.1 else
+  let s := s.1
   match s.w.buf with
   | [] => s
   | _ =>
     let w := s.w
     let b := mk w.buf
     let start := w.pos
-    -- `buffer.Flush()` has already cleared the buffer when the writes start
+    -- the buffer has already been emptied when the writes start
     let wCleared : WSt := { w with buf := [], bufSize := 0 }
     let w0 := if fc.clearsBufferBeforeWrite then wCleared else w
     let rollback (s : FSt) (pos : Nat) : FSt :=
       if fc.rollsBackFailedBlock then
-        let (s', _) := ({ s with w := { w with pos := start } } : FSt).issue (.truncate w.path start)
-        { s' with failed := true }
+        let (s', r) := ({ s with w := { w with pos := start } } : FSt).issue (.truncate w.path start)
+        { s' with w := { s'.w with dirty := !r.isOk }, failed := true }
       else { s with w := { w0 with pos := pos }, failed := true }
     let (s1, r1) := s.issue (.write w.path start (hdrCells b))
     if !r1.isOk then rollback s1 (start + r1.written 16) else
@@ -109,7 +119,9 @@ def syncWF (c : Cfg) (fc : FCfg) (mk : Mk) (s : FSt) : FSt :=
   let s1 := flushWF fc mk { s with failed := false }
   if s1.failed then s1 else
   let (s2, r2) := s1.issue (.write s1.w.path 0 (fhCells s1.w.nl))
-  if !r2.isOk then { s2 with w := { s2.w with pos := r2.written 64 }, failed := true } else
+  if !r2.isOk then
+    { s2 with w := { s2.w with pos := if fc.restoresOffsetAfterHeader then fileLen s2.d s2.w.path else r2.written 64 },
+              failed := true } else
   -- Seek(0, io.SeekEnd)
   let s3 := { s2 with w := { s2.w with pos := fileLen s2.d s2.w.path } }
   if c.syncFsyncs then
